@@ -129,13 +129,17 @@ def run_pairs(ctx, tag, pairs, shard=40, search=True, timeout=900,
             break
         vals, errs = ctx.coq_eval(f"{tag}{stage}", cases, header=hdr,
                                   shard=shard,
-                                  timeout=timeout if stage == 0 else 300)
+                                  timeout=timeout if stage == 0 else 150)
         todo = []
         for n, v in zip(idxs, vals):
             p = pairs[n]
             if v is None:
                 p.ok = False
                 p.err = "coq evaluation failed: " + "; ".join(errs)[:500]
+                if "rc=124" in p.err:
+                    # the kernel evaluation ran into its time limit: neither
+                    # accepted nor rejected
+                    p.timed_out = True
             else:
                 p.ok = (v == "true")
                 p.err = None
